@@ -146,15 +146,17 @@ theorem later_0d (hs : TS Lx Ly Lz a x y z) (ht : TS Lx Ly Lz b u v w)
       rcases h3 with h3 | h3 | h3 <;> omega
   obtain ⟨rfl, rfl, rfl, rfl, _⟩ := hloc
   subst ha
-  unfold SelC QC at htc
+  unfold SelC QC QY QX at htc
   simp only [rk] at hlex
-  rcases htc with h | h | ⟨h, _⟩ | ⟨_, h | ⟨h, _⟩ | ⟨_, _, h⟩ | h⟩
+  rcases htc with h | h | ⟨h, _⟩ | ⟨_, h | ⟨h, _⟩ | ⟨_, _, h⟩ | h | h | h⟩
   · omega
   · omega
   · omega
   · exact hx h
   · omega
   · exact h hsp
+  · omega
+  · omega
   · omega
 
 /-- the lower triangle of axis 0 whose upper partner is not listed, probe on the z leg
